@@ -17,8 +17,10 @@ fn budget_for(sel: u64, ovh: usize) -> Option<usize> {
         (ovh as i64 + 12 + (1i64 << k) + d) as usize
     } else if sel == 100 {
         1152
-    } else {
+    } else if sel == 101 {
         1280
+    } else {
+        ovh + 93 + (sel - 102) as usize
     };
     if b < ovh + 28 || b > 1280 {
         None
@@ -27,6 +29,8 @@ fn budget_for(sel: u64, ovh: usize) -> Option<usize> {
     }
 }
 const NBUDGETS: u64 = 102;
+/// thorough: additionally every budget overhead+93 ..= 1280 (selector 102 + k)
+const NBUDGETS_ALL: u64 = 102 + 1280;
 
 fn check_size_choice(szx: u8, client: Option<u8>, ovh: usize, budget: usize) -> Result<(), (String, String)> {
     if szx > 6 {
@@ -171,12 +175,12 @@ pub fn run(ctx: &Ctx, rep: &mut Report) {
         let tokens = [0usize, 4, 8];
         let optsets: Vec<Vec<(u16, Vec<u8>)>> = vec![vec![], vec![(8, vec![b'L'; 60])], vec![(4, vec![1, 2, 3, 4, 5, 6, 7, 8]), (14, vec![0xFF, 0xFF, 0xFF, 0xFF]), (12, vec![0x2A, 0xF8])]];
         let clients: Vec<Option<u8>> = std::iter::once(None).chain((0..=7).map(Some)).collect();
-        let radices = [NBUDGETS, 3, 3, clients.len() as u64, 6];
+        let radices = [if ctx.thorough() { NBUDGETS_ALL } else { NBUDGETS }, 3, 3, clients.len() as u64, 6];
         let n = product(&radices);
         ctx.family(
             rep,
             "downloads",
-            "budget (every value overhead+28..+92, +-2 around overhead+12+2^k for k=4..10, 1152, 1280) x token length {0,4,8} x application options {none, 60-byte Location-Path, ETag+Max-Age+Content-Format} x client SZX {none, 0..7} x body {half a block, block-1, block, block+1, 2 blocks+1, 5 blocks+3 relative to the room left by the budget}: every reply measured against the budget, size choice checked",
+            "budget (every value overhead+28..+92, +-2 around overhead+12+2^k for k=4..10, 1152, 1280; thorough: every value up to 1280) x token length {0,4,8} x application options {none, 60-byte Location-Path, ETag+Max-Age+Content-Format} x client SZX {none, 0..7} x body {half a block, block-1, block, block+1, 2 blocks+1, 5 blocks+3 relative to the room left by the budget}: every reply measured against the budget, size choice checked",
             n,
             true,
             |i, rep| {
@@ -233,7 +237,7 @@ pub fn run(ctx: &Ctx, rep: &mut Report) {
         let long_seg = "s".repeat(60);
         let paths: Vec<Vec<&str>> = vec![vec!["a"], vec!["seg1", "seg2", "seg3"], vec![&long_seg]];
         let extras: Vec<Vec<(u32, Vec<u8>)>> = vec![vec![], vec![(15, vec![b'q'; 40])]];
-        let radices = [NBUDGETS, 3, 3, 2, 7, 4];
+        let radices = [if ctx.thorough() { NBUDGETS_ALL } else { NBUDGETS }, 3, 3, 2, 7, 4];
         let n = product(&radices);
         ctx.family(
             rep,
